@@ -43,8 +43,13 @@ def render_class(spec, ind=0, parent=None):
     out = []
     if spec.get('dataclass'):
         out.append('%s@dataclasses.dataclass' % pad)
-    out.append('%sclass %s%s:' % (pad, spec['name'], '(%s)' % parent if parent else ''))
+    flavour = spec.get('flavour', 'plain')
+    bases = {'plain': parent or '', 'abc': 'abc.ABC', 'meta': 'metaclass=Meta', 'enum': 'enum.Enum',
+             'protocol': 'typing.Protocol'}[flavour if not parent else 'plain']
+    out.append('%sclass %s%s:' % (pad, spec['name'], '(%s)' % bases if bases else ''))
     out.append('%s    """doc of %s"""' % (pad, spec['name']))
+    if flavour == 'enum' and not parent:
+        out.append('%s    ONLY = 1' % pad)
     if spec.get('dataclass'):
         out.append('%s    field_a: int = 0' % pad)
     for m in spec['members']:
@@ -90,7 +95,10 @@ def render(spec):
 def load(spec):
     import dataclasses
     import typing
-    ns = {'dataclasses': dataclasses, 'typing': typing, 'userdeco': userdeco, '__name__': 'c13mod'}
+    import abc
+    import enum
+    ns = {'dataclasses': dataclasses, 'typing': typing, 'userdeco': userdeco, '__name__': 'c13mod', 'abc': abc, 'enum': enum,
+          'Meta': type('Meta', (type,), {})}
     src = render(spec)
     exec(compile(src, '<c13>', 'exec'), ns)
     return ns, src
@@ -134,7 +142,7 @@ def probes(cls, spec, prefix=''):
     """[(label, thunk)] exercising every member with conforming and violating arguments."""
     out = []
     try:
-        inst = cls()
+        inst = list(cls)[0] if spec.get('flavour') == 'enum' else cls()
     except Exception as e:
         out.append((prefix + 'ctor', lambda e=e: (_ for _ in ()).throw(e)))
         return out
@@ -187,7 +195,9 @@ def _cls(name, depth):
     members = st.lists(_member, min_size=1, max_size=5).map(
         lambda ms: [dict(m, name='%s%d' % (m['kind'][:2], i)) for i, m in enumerate(ms)])
     nested = st.lists(st.deferred(lambda: _cls('N%d' % depth, depth - 1)), max_size=1) if depth > 0 else st.just([])
-    return st.fixed_dictionaries({'name': st.just(name), 'members': members, 'nested': nested,
+    # nested classes come in every flavour of metaclass (plain type, ABCMeta, a user metaclass, EnumMeta, the Protocol metaclass)
+    flavour = st.sampled_from(['plain', 'plain', 'abc', 'meta', 'enum', 'protocol']) if depth < 2 else st.just('plain')
+    return st.fixed_dictionaries({'name': st.just(name), 'members': members, 'nested': nested, 'flavour': flavour,
                                   'dataclass': st.booleans() if depth == 2 else st.just(False)})
 
 
